@@ -62,6 +62,10 @@ func (r *baseRouter) ResultName() string { return r.resultName }
 
 // EnumerateTemplates enumerates all expressions on this object and its children
 func (r *baseRouter) EnumerateTemplates(localization flows.Localization, include func(i18n.Language, string)) {
+	// a wait can have templates of its own (e.g. the phone number of a dial wait)
+	if te, ok := r.wait.(flows.TemplateEnumerator); ok {
+		te.EnumerateTemplates(localization, include)
+	}
 }
 
 // EnumerateDependencies enumerates all dependencies on this object
